@@ -576,6 +576,10 @@ def _mem_keys(expr):
     return keys
 
 
+def _pure_expr(e):
+    return not any(x.get('k') in ('call', 'assign', 'incdec', 'stmtexpr') for x in walk(e))
+
+
 def holding(fn, user_call_kills=True, extra_kill=None):
     """For every program point the set of branch atoms (op, lhs, rhs) that hold
     on all paths to it.  Atoms are killed by stores that may alias one of the
@@ -583,6 +587,21 @@ def holding(fn, user_call_kills=True, extra_kill=None):
     user callbacks (indirect calls) for everything read through memory."""
     def gen(blk, si):
         atoms = []
+        if blk.term and blk.term.get('cls') == 'SwitchStmt' and blk.term.get('cond') is not None:
+            # `switch (x)`: x == v on the edge of `case v`, x != every case value on the default edge
+            cases = blk.term.get('cases') or []
+            c = blk.term['cond']
+            if si < len(cases) and _pure_expr(c):
+                keys = frozenset(_mem_keys(c))
+                me = cases[si]
+                same_target = [cv for k_, cv in enumerate(cases) if blk.succ[k_] == blk.succ[si]]
+                if me != 'default' and isinstance(me, int) and len(same_target) == 1:
+                    atoms.append(('==', canon(c), str(me), keys))
+                elif me == 'default' and len(same_target) == 1:
+                    for cv in cases:
+                        if isinstance(cv, int):
+                            atoms.append(('!=', canon(c), str(cv), keys))
+            return atoms
         if blk.term and len(blk.succ) == 2 and blk.term.get('cls') not in ('SwitchStmt', 'MethodDispatch'):
             c = blk.term.get('cond')
             if c is not None:
